@@ -464,6 +464,7 @@ fn drive<F, O: PartialEq + Debug>(
     };
     let sweep = matches!(s.dup, Some(DupShape::RankSweep { .. }));
     let mut delivered = 0u64;
+    let mut first_trace = String::new();
     for p in positions {
         if sweep {
             tail.set(p.map(|j| j as u32));
@@ -495,6 +496,21 @@ fn drive<F, O: PartialEq + Debug>(
             progress(&o.kst, &o.vst, has_values, o.secs)
         );
         c.tick(1);
+        if first_trace.is_empty() {
+            first_trace = format!(
+                "first run of the plan: keys {:?} values {:?}, delivered at (pass, position or rewind number): keys {:?} values {:?}; result {}; {}",
+                kf,
+                vf,
+                fired_k,
+                fired_v,
+                match &o.res {
+                    Err(_) => "panic".to_string(),
+                    Ok(Ok(_)) => "Ok".to_string(),
+                    Ok(Err(e)) => format!("Err({:#})", e),
+                },
+                progress(&o.kst, &o.vst, has_values, o.secs)
+            );
+        }
         if fired {
             delivered += 1;
             bump(&FAULTS_DELIVERED, 1);
@@ -562,6 +578,19 @@ fn drive<F, O: PartialEq + Debug>(
             }
         }
     }
+    c.describe(|| {
+        format!(
+            "{}; fault plan: {:?} in {} lender(s), retry passes forced by {:?}; tag {}; builder seed used {}; {} of the planned fault points delivered; {}",
+            base,
+            s.fault,
+            s.wh.name(),
+            s.retry,
+            fault_tag(tag),
+            seed,
+            delivered,
+            first_trace
+        )
+    });
     // non-degenerate: at least one fault point was really reached, or a duplicate was refused
     if delivered > 0 || (s.fault == FaultKind::NoFault && dups) {
         c.nontrivial();
@@ -953,7 +982,7 @@ fn main() {
     }
 
     // 5. random fault plans on top
-    let rounds = ctx.scale(5, 3_000, 30_000);
+    let rounds = ctx.scale(5, 3_000, 100_000);
     for _ in 0..rounds {
         let v = r.random_range(0..VARIANTS.len());
         let var = &VARIANTS[v];
